@@ -313,6 +313,7 @@ class Path:
         self.visits = {}
         self.panics = None
         self.asserts = []  # (cond_term, msg) of MIR assert terminators passed (overflow / bounds checks)
+        self.heap = {}     # name of an opaque pointer-like aggregate -> Cell of its abstract pointee (shared by copies)
 
 
 class Frame:
@@ -357,6 +358,7 @@ class Executor:
         self.loop_bound = loop_bound
         self.done = []
         self._pure_memo = {}
+        self.cur_path = None
 
     # ---- places ---------------------------------------------------------------------------------------------------
     def local_cell(self, frame, name):
@@ -389,9 +391,9 @@ class Executor:
                 if m:
                     return ("field", self.parse_place(m.group(1)), m.group(2), ty.strip())
             return self.parse_place(inner)
-        m = re.match(r"^(.*)\[(.*)\]$", s)
+        m = re.match(r"^(.*)\[(_\d+|\d+ of \d+|-?\d+ of \d+)\]$", s)
         if m:
-            raise Unsupported("index projection: " + s)
+            return ("index", self.parse_place(m.group(1)), m.group(2))
         if s.startswith("*"):
             return ("deref", self.parse_place(s[1:]))
         raise Unsupported("place syntax: " + s)
@@ -413,7 +415,13 @@ class Executor:
             if isinstance(v, Ref):
                 return v.cell
             if isinstance(v, Agg):
-                # Box / raw pointer / smart pointer internals seen as an opaque aggregate: abstract pointee object
+                # Box / raw pointer / smart pointer internals seen as an opaque aggregate: abstract pointee object,
+                # keyed by the aggregate's symbolic name so that every copy of the pointer reaches the same pointee
+                if v.name is not None and self.cur_path is not None:
+                    h = self.cur_path.heap
+                    if v.name not in h:
+                        h[v.name] = Cell(Agg(self.ctx, v.name + "*", "?pointee"))
+                    return h[v.name]
                 if "*" not in v.fields:
                     v.fields["*"] = Cell(Agg(self.ctx, (v.name or self.ctx.fresh("box")) + "*", "?pointee"))
                 return v.fields["*"]
@@ -428,6 +436,26 @@ class Executor:
                     v.fields[ast[2]] = Cell(None)
                 return v.field_cell(ast[2], ast[3])
             raise Unsupported(f"field {ast[2]} of non-aggregate {v!r}")
+        if k == "index":
+            if for_write:
+                raise Unsupported("write through an index projection")
+            c = self.place_cell(frame, ast[1])
+            v = c.val
+            if not isinstance(v, Agg):
+                raise Unsupported(f"index into non-aggregate {v!r}")
+            if re.match(r"^_\d+$", ast[2]):
+                iv = self.place_cell(frame, ("local", ast[2])).val
+                key = "[" + (iv.term if isinstance(iv, Leaf) else repr(iv)) + "]"
+            else:
+                key = "[" + ast[2] + "]"
+            # element read: one abstract element per syntactic index term (reads through different but equal index
+            # terms are NOT correlated: an over-approximation, sound for UNSAT verdicts)
+            if key not in v.fields:
+                hint = getattr(self, "_elem_hint", None)
+                if hint is None:
+                    raise Unsupported("element type of index projection unknown")
+                v.fields[key] = Cell(self.ctx.sym(self.ctx.fresh((v.name or "arr") + key), hint))
+            return v.fields[key]
         if k == "downcast":
             c = self.place_cell(frame, ast[1])
             v = c.val
@@ -468,6 +496,7 @@ class Executor:
         t = text.strip()
         if t.startswith("no_retag "):
             t = t[9:].strip()
+        self._elem_hint = hint_ty
         if t.startswith("copy "):
             return clone(self.read_place(frame, t[5:]))
         if t.startswith("move "):
@@ -486,8 +515,22 @@ class Executor:
             raise Unsupported("read of uninitialised place " + text)
         return c.val
 
+    def named_const(self, agg, ty):
+        """a named constant (`const tcp::PROTOCOL_VERSION`) whose value the dump does not show: an uninterpreted symbol
+        (same name -> same symbol): over-approximation"""
+        return self.ctx.declare("const:" + agg.const_text, ty)
+
     def binop(self, path, op, a, b):
+        if isinstance(a, Leaf) and isinstance(b, Agg) and getattr(b, "const_text", None):
+            b = self.named_const(b, a.ty)
+        if isinstance(b, Leaf) and isinstance(a, Agg) and getattr(a, "const_text", None):
+            a = self.named_const(a, b.ty)
         if not (isinstance(a, Leaf) and isinstance(b, Leaf)):
+            if isinstance(a, Agg) and isinstance(b, Agg):
+                # float / opaque operands: abstract result (comparison -> fresh Bool, arithmetic -> fresh opaque value)
+                if op in ("Eq", "Ne", "Lt", "Le", "Gt", "Ge"):
+                    return self.ctx.sym(self.ctx.fresh("opaque:" + op), "bool")
+                return Agg(self.ctx, self.ctx.fresh("opaque:" + op), a.ty)
             raise Unsupported(f"binop {op} on non-scalars {a!r} {b!r}")
         ta = a.ty
         if ta == "bool":
@@ -563,7 +606,8 @@ class Executor:
         m = re.match(r"^(PtrMetadata|Len|UnaryOp|SizeOf|AlignOf)\(.*\)$", t)
         if m:
             if dest_ty and is_scalar(dest_ty):
-                return self.ctx.sym(self.ctx.fresh(m.group(1)), dest_ty)
+                nm = "len" if m.group(1) in ("PtrMetadata", "Len") else m.group(1)
+                return self.ctx.sym(self.ctx.fresh(nm), dest_ty)
             raise Unsupported("rvalue: " + t)
         # references
         m = re.match(r"^&(?:raw (?:const|mut) )?(mut )?(.*)$", t)
@@ -597,6 +641,8 @@ class Executor:
         if m and m.group(1) in ("Not", "Neg"):
             v = self.operand(frame, m.group(2))
             if not isinstance(v, Leaf):
+                if isinstance(v, Agg):  # float / opaque operand: the result is an abstract value (over-approximation)
+                    return Agg(self.ctx, self.ctx.fresh("opaque:" + m.group(1)), v.ty)
                 raise Unsupported("unop on " + repr(v))
             if m.group(1) == "Not":
                 if v.ty == "bool":
@@ -614,6 +660,15 @@ class Executor:
                     val = self.operand(frame, ov)
                     a.fields[str(i)] = Cell(val)
                     a.fields[fn.strip()] = a.fields[str(i)]
+            return a
+        # array aggregate  [a, b, c]
+        if t.startswith("[") and t.endswith("]") and "; " not in t:
+            a = Agg(self.ctx, None, dest_ty or "array")
+            elems = split_top(t[1:-1]) if t[1:-1].strip() else []
+            for i, o in enumerate(elems):
+                c = Cell(self.operand(frame, o))
+                a.fields[f"[{i} of {len(elems)}]"] = c
+                a.fields[f"[{bvconst(i, 64)}]"] = c
             return a
         # tuple aggregate
         if t.startswith("(") and matching_paren(t, 0) == len(t) - 1:
@@ -634,9 +689,13 @@ class Executor:
                     pa.fields[str(i)] = Cell(self.operand(frame, o))
                 a.variants[vn] = Cell(pa)
                 return a
-            # tuple struct constructor
+            # tuple struct constructor OR variant of an enum whose numbering is unknown here: keep both readings
+            pa = Agg(self.ctx, None, f"{en}@{vn}")
             for i, o in enumerate(split_top(args)):
-                a.fields[str(i)] = Cell(self.operand(frame, o))
+                c = Cell(self.operand(frame, o))
+                a.fields[str(i)] = c
+                pa.fields[str(i)] = c
+            a.variants[vn] = Cell(pa)
             return a
         m = re.match(r"^([\w:<>, &'()\[\];]+?) \{(.*)\}$", t)
         if m:
@@ -738,6 +797,7 @@ class Executor:
 
     def step(self, st, s, results):
         path, frame = st.path, st.frames[-1]
+        self.cur_path = path
         s = s.rstrip(";").strip()
         if s.startswith(("StorageLive", "StorageDead", "FakeRead", "PlaceMention", "nop", "Retag", "AscribeUserType",
                          "Coverage", "ConstEvalCounter", "BackwardIncompatibleDropHint")) or s.startswith("//"):
@@ -867,7 +927,7 @@ class Executor:
                 if key is not None:
                     self._pure_memo[key] = ret
             path.events.append({"callee": callee, "args": args, "ret": ret, "fn": frame.func.name.split("::")[-1],
-                                "argdesc": [describe(a) for a in args]})
+                                "argdesc": [describe(a) for a in args], "pc_prefix": list(path.pc)})
             for a in args:
                 self.havoc(a)
             self.place_cell(frame, dast, for_write=True).val = ret
